@@ -91,12 +91,12 @@ bool Logic::isBuiltinFunction(SymRef const sr) const {
     return false;
 }
 
-bool Logic::isReservedWord(std::string const & name) const {
+bool Logic::isReservedWord(std::string const & name) {
     return tokens::tokenNames.find(name) != tokens::tokenNames.end();
 }
 
 // Escape the symbol name if it contains a character not allowed in the simple symbol, as defined by SMT-LIB 2.6
-bool Logic::hasQuotableChars(std::string const & name) const {
+bool Logic::hasQuotableChars(std::string const & name) {
     if (name.front() == '|' and name.back() == '|') return false; // Already quoted
 
     // SMT-LIB 2.6 standard, page 23, paragraph symbols:
@@ -127,9 +127,10 @@ std::string Logic::disambiguateName(std::string const & protectedName, SRef sort
 //
 // Quote the name if it contains illegal characters
 //
-std::string Logic::protectName(std::string const & name, bool isInterpreted) const {
-    assert(not name.empty());
-    if (not isInterpreted and (hasQuotableChars(name) or std::isdigit(name[0]) or isReservedWord(name))) {
+std::string Logic::protectName(std::string const & name, bool isInterpreted) {
+    // The empty name and names that the lexer would read as a negative number (-5, -1/3, -0.5) have to be quoted, too
+    if (not isInterpreted and (name.empty() or hasQuotableChars(name) or std::isdigit(name[0]) or isReservedWord(name) or
+                               (name.size() > 1 and name[0] == '-' and std::isdigit(name[1])))) {
         return '|' + name + '|';
     }
     return name;
